@@ -150,8 +150,11 @@ def warm():
     """compile the numba kernel once in the parent so that forked workers inherit it"""
     from pero_ocr.core.force_alignment import force_align, align_text
     m = np.array([[0.0, 1.0], [1.0, 0.0], [0.0, np.inf]])
-    force_align(m, [0], 1)
-    align_text(m, np.array([0]), 1)
+    try:        # only the compilation matters here; whatever the real code does with this input is judged in the cases
+        force_align(m, [0], 1)
+        align_text(m, np.array([0]), 1)
+    except Exception:
+        pass
 
 
 def execute(c, cases):
@@ -187,28 +190,21 @@ def selftests(ctx, c, traces):
         ctx.tlc("ForcedAlign", constants=tla_constants(small, mut), invariants=INVS, workers=4, timeout=900, coverage=False,
                 expect_violation=inv, label="ForcedAlign selftest Mut=%s" % mut)
     consts = tla_constants(c)
-    # a trace with at least two aligned frames for some character whose costs differ, and T > L
-    good = None
-    for tr in traces:
-        if tr["outcome"] == "ok" and len(tr["labels"]) == 1 and tr["path"].count(tr["labels"][0]) >= 2:
-            fr = [f for f in range(c["T"]) if tr["path"][f] == tr["labels"][0]]
-            if len({min(tr["cm"][f]) for f in fr}) > 1:
-                good = tr
-                break
-    if good is not None:
+    # (b1) the most-confident-frame clause: a hand-made case with ONE optimal alignment (blank impossible, so every frame carries the
+    # label) whose middle frame is the only confident one; moving the position elsewhere cannot be explained by any other alignment
+    if c["T"] == 3 and c["C"] == 3:
+        good = execute(c, [((1, 1, INF, 1, 0, INF, 1, 1, INF), (0,), 2)])[0]
+
         def corrupt_pos(tr):
-            fr = [f + 1 for f in range(len(tr["path"])) if tr["path"][f] == tr["labels"][0] and f + 1 != tr["pos"][0]]
-            worst = max(fr, key=lambda f: min(tr["cm"][f - 1]))
-            tr["pos"][0] = worst
+            tr["pos"][0] = 1 if tr["pos"][0] != 1 else 3
             return tr
         ctx.selftest_corrupt("ForcedAlign_Trace", good, corrupt_pos, constants=consts)
-    good2 = next((tr for tr in traces if tr["outcome"] == "ok" and tr["blank"] in tr["path"]
-                  and min(tr["cm"][tr["path"].index(tr["blank"])]) < INF), None)
+    def foreign(tr):
+        return [s for s in range(len(tr["cm"][0])) if s != tr["blank"] and s not in tr["labels"]]
+    good2 = next((tr for tr in traces if tr["outcome"] == "ok" and tr["blank"] in tr["path"] and foreign(tr)), None)
     if good2 is not None:
         def corrupt_path(tr):
-            f = tr["path"].index(tr["blank"])       # replace one blank frame by a foreign symbol
-            other = [s for s in range(len(tr["cm"][0])) if s != tr["blank"] and s not in tr["labels"]]
-            tr["path"][f] = other[0] if other else tr["labels"][0]
+            tr["path"][tr["path"].index(tr["blank"])] = foreign(tr)[0]      # a blank frame replaced by a symbol that is not a label
             return tr
         ctx.selftest_corrupt("ForcedAlign_Trace", good2, corrupt_path, constants=consts)
     good3 = next((tr for tr in traces if tr["outcome"] == "ok"), None)
